@@ -343,7 +343,15 @@ def hyp_collect(stats, make_test, seed_value, max_examples, rounds=6, shrink=Tru
             fkey, case, expected, observed, note = last["f"]
             collected[fkey] = True
             stats.fail(fkey, case, expected, observed, note, size=0)
-        except hypothesis.errors.Flaky as e:  # nondeterministic harness: not a violation
+        except hypothesis.errors.Flaky as e:
+            # the failing example did not fail again when Hypothesis re-executed it.  The oracle did observe the failure
+            # once, against the real code: for the checks that involve real threads / sockets that is a timing-dependent
+            # violation and is reported as such (unshrunk); without an observed failure it is a harness problem
+            if last.get("f"):
+                fkey, case, expected, observed, note = last["f"]
+                collected[fkey] = True
+                stats.fail(fkey, case, expected, observed, (note or '') + ' [not reproduced on immediate re-execution: timing-dependent]', size=0)
+                continue
             raise HarnessError(f"flaky test body: {e}")
     return collected
 
